@@ -23,6 +23,8 @@
  *   curve events:  ca, cb, n, h, kbl, opta, optb, add, wd, dep, dgb + P, Q, R points {x,y,z,c}, k, m scalars
  */
 #include "vh.h"
+#include <setjmp.h>
+#include <sys/wait.h>
 #ifdef VH_FBX
 #include <relic_fbx.h>
 #endif
@@ -46,6 +48,7 @@ static FILE *real_out;
 static char *mbuf;
 static size_t mlen, safe_len;
 static volatile int in_event;
+static int fork_mode = 1, is_child = 0;
 
 static void ev_begin(const char *op) {
 	mbuf = NULL; mlen = 0; safe_len = 0;
@@ -62,15 +65,52 @@ static void ev_end(void) {
 	fflush(real_out);
 	free(mbuf);
 	vh_out = real_out;
+	if (is_child) _exit(0);
 }
-#define MARK() do { fflush(vh_out); safe_len = mlen; } while (0)
+/* The inputs are complete (MARK): the call itself runs in a forked child, which finishes the event
+ * and exits; the parent waits.  If the child dies (fatal signal, watchdog) the parent - whose memory
+ * the faulty call could not touch - publishes the inputs as an event of the SAME op with
+ * "crash":<signal> (the spec judges it: never accepted) and goes on with the next case.
+ * VH_NOFORK=1 runs everything in one process (then a crash ends the process: see fb_fatal). */
+static char safe_buf[1 << 20];
+static jmp_buf case_jmp;
+static void fork_point(void) {
+	pid_t pid;
+	int st = 0, sig;
+	char buf[128];
+	fflush(real_out);
+	pid = fork();
+	if (pid < 0) { perror("fork"); exit(2); }
+	if (pid == 0) {
+		is_child = 1;
+		signal(SIGSEGV, SIG_DFL); signal(SIGBUS, SIG_DFL); signal(SIGFPE, SIG_DFL);
+		signal(SIGABRT, SIG_DFL); signal(SIGILL, SIG_DFL); signal(SIGALRM, SIG_DFL);
+		alarm(60);
+		return;
+	}
+	while (waitpid(pid, &st, 0) < 0) {}
+	if (!(WIFEXITED(st) && WEXITSTATUS(st) == 0)) {
+		sig = WIFSIGNALED(st) ? WTERMSIG(st) : 99;
+		fwrite(mbuf, 1, mlen, real_out);
+		snprintf(buf, sizeof(buf), ",\"crash\":%d,\"err\":0,\"code\":0,\"unch\":false}\n", sig);
+		fputs(buf, real_out);
+		fflush(real_out);
+	}
+	fclose(vh_out);
+	free(mbuf);
+	vh_out = real_out;
+	in_event = 0;
+	longjmp(case_jmp, 1);
+}
+#define MARK() do { fflush(vh_out); safe_len = mlen < sizeof(safe_buf) ? mlen : 0; memcpy(safe_buf, mbuf, safe_len); \
+	if (fork_mode) fork_point(); } while (0)
 
 static void fb_fatal(int sig) {
 	char buf[200];
 	int n;
 	const char *what = (sig == SIGALRM) ? "TIMEOUT" : "CRASH";
 	if (in_event && safe_len > 0) {
-		if (write(vh_outfd, mbuf, safe_len) < 0) {}
+		if (write(vh_outfd, safe_buf, safe_len) < 0) {}
 		n = snprintf(buf, sizeof(buf), ",\"crash\":%d,\"err\":0,\"code\":0,\"unch\":false}\n", sig);
 		if (write(vh_outfd, buf, n) < 0) {}
 		what = "restart";
@@ -80,6 +120,17 @@ static void fb_fatal(int sig) {
 	_exit(sig == SIGALRM ? 3 : 4);
 }
 static void fb_install(void) {
+	static char altstack[1 << 16];
+	stack_t ss;
+	struct sigaction sa;
+	int sigs[] = { SIGSEGV, SIGBUS, SIGFPE, SIGABRT, SIGILL, SIGALRM }, i;
+	ss.ss_sp = altstack; ss.ss_size = sizeof(altstack); ss.ss_flags = 0;
+	sigaltstack(&ss, NULL);
+	memset(&sa, 0, sizeof(sa));
+	sa.sa_handler = fb_fatal;
+	sa.sa_flags = SA_ONSTACK | SA_NODEFER;
+	for (i = 0; i < 6; i++) sigaction(sigs[i], &sa, NULL);
+	return;
 	signal(SIGSEGV, fb_fatal); signal(SIGBUS, fb_fatal); signal(SIGFPE, fb_fatal);
 	signal(SIGABRT, fb_fatal); signal(SIGILL, fb_fatal); signal(SIGALRM, fb_fatal);
 }
@@ -945,6 +996,7 @@ int main(int argc, char **argv) {
 	}
 	in = vh_open(argc, argv, &start);
 	real_out = vh_out;
+	if (getenv("VH_NOFORK")) fork_mode = 0;
 	fb_install();
 	if (core_init() != RLC_OK) return 2;
 #if RAND == CALL
@@ -955,7 +1007,9 @@ int main(int argc, char **argv) {
 		if (idx++ < start) continue;
 		vh_case = idx - 1;
 		alarm(60);
-		if (vh_ntok < 2 || !run_case()) { fprintf(stderr, "unknown op %s\n", vh_ntok > 1 ? vh_tok[1] : "?"); return 2; }
+		if (setjmp(case_jmp) == 0) {
+			if (vh_ntok < 2 || !run_case()) { fprintf(stderr, "unknown op %s\n", vh_ntok > 1 ? vh_tok[1] : "?"); return 2; }
+		}
 		alarm(0);
 	}
 	fclose(real_out);
